@@ -272,6 +272,17 @@ func MatchConnModel(model *Model, c *Case, cs *connState, t *Transcript) *MatchR
 			for have < len(t.Msgs) && offs[have+1] <= q {
 				have++
 			}
+			if have > want && prevFed < len(mt.msgs) && cs.cc.Steps[cs.QStep[k-1]-1].HoldBack > 0 && cs.cc.heldBack(cs.QStep[k-1]-1) {
+				// the flight fed last ended in the middle of a message: whatever was
+				// sent beyond the replies to the complete messages answers a message
+				// the server has not received in full
+				res.OK = false
+				res.Rule = "reply-before-message-complete"
+				res.Sig = "reply before complete " + clientKind(&mt.msgs[prevFed])
+				res.Detail = fmt.Sprintf("server is waiting for the rest of client message #%d (%s), of which only a part has been delivered, but has already sent %d reply message(s) beyond the %d due for the complete messages (got %q)",
+					prevFed, clientKind(&mt.msgs[prevFed]), have-want, want, pgwire.Kinds(t.Msgs[:have]))
+				return res
+			}
 			if have < want {
 				res.OK = false
 				res.Rule = "reply-withheld"
